@@ -277,6 +277,7 @@ def main():
         out["dump_sites"] = dump_sites()
     elif op == "emit":
         out["results"] = run_emit(req["cases"])
+        out["emit_sites"] = emit_sites()
     json.dump(out, sys.stdout)
 
 
@@ -481,6 +482,15 @@ def _emit_via_helper(em, idv, payload):
             elif em == "send_progress_notification":
                 from chuk_mcp.protocol.messages.notifications import send_progress_notification
                 await send_progress_notification(cap, idv, 0.5, 1.0, "half")
+            elif em == "send_initialized_notification":
+                from chuk_mcp.protocol.messages.initialize.send_messages import send_initialized_notification
+                await send_initialized_notification(cap)
+            elif em == "send_roots_list_changed.notifications":
+                from chuk_mcp.protocol.messages.notifications import send_roots_list_changed_notification
+                await send_roots_list_changed_notification(cap)
+            elif em == "send_roots_list_changed.roots":
+                from chuk_mcp.protocol.messages.roots.send_messages import send_roots_list_changed_notification
+                await send_roots_list_changed_notification(cap)
         except Stop:
             pass
 
@@ -563,6 +573,7 @@ def transport_outputs(cases):
                     try:
                         await ws.send(build(i))
                         await anyio.sleep(0.2)          # past the transport's own wait for an answer
+                        stdio_drv.drain(rs)             # the synthesised terminals must not fill the read stream
                         if len(bodies) != n + 1:
                             raise ValueError("%d POSTs for one message" % (len(bodies) - n))
                         out[i] = json.loads(bodies[n].decode("utf-8"))
@@ -579,6 +590,34 @@ def transport_outputs(cases):
     if any(by.values()):
         vloop.run(main)
     return out
+
+
+def emit_sites():
+    """functions of the package whose source builds a JSON-RPC message (a "jsonrpc" literal, a
+    create_* constructor call or a typed message class call): the emitter census of C02"""
+    import chuk_mcp
+    import re
+    pat = re.compile(r'"jsonrpc"|\bcreate_(?:request|notification|response|error_response)\(|\bJSONRPC(?:Request|Response|Error|Notification|Message)\(')
+    sites = []
+    for m in pkgutil.walk_packages(chuk_mcp.__path__, "chuk_mcp."):
+        try:
+            mod = importlib.import_module(m.name)
+        except Exception:
+            continue
+        for n, f in list(vars(mod).items()):
+            objs = [(n, f)]
+            if inspect.isclass(f) and f.__module__ == mod.__name__:
+                objs = [(n + "." + k, v) for k, v in vars(f).items() if inspect.isfunction(v) or isinstance(v, (classmethod, staticmethod))]
+            for name, fn in objs:
+                fn = getattr(fn, "__func__", fn)
+                if inspect.isfunction(fn) and getattr(fn, "__module__", None) == mod.__name__:
+                    try:
+                        src = inspect.getsource(fn)
+                    except Exception:
+                        continue
+                    if pat.search(src):
+                        sites.append(m.name + ":" + name)
+    return sorted(set(sites))
 
 
 def run_emit(cases):
@@ -619,8 +658,26 @@ def run_emit(cases):
                 m = J.JSONRPCMessage.create_response(idv, payload)
             elif em == "legacy.create_error_response":
                 m = J.JSONRPCMessage.create_error_response(idv, -32002, "bad", payload)
-            elif em in ("send_message", "send_tools_call", "send_cancelled_notification", "send_progress_notification"):
+            elif em in ("send_message", "send_tools_call", "send_cancelled_notification", "send_progress_notification",
+                        "send_initialized_notification", "send_roots_list_changed.notifications", "send_roots_list_changed.roots"):
                 m = _emit_via_helper(em, idv, payload)
+            elif em == "handle_roots_list_request":
+                import asyncio
+                from chuk_mcp.protocol.messages.roots.send_messages import handle_roots_list_request, Root
+                m = asyncio.run(handle_roots_list_request([Root(uri="file:///tmp/verif", name="r\u2028")], idv))
+            elif em.startswith("handle_elicitation_request"):
+                import asyncio
+                from chuk_mcp.protocol.types.elicitation import ElicitationClient
+
+                async def ask(message, schema, title=None):
+                    if em.endswith(":fails"):
+                        raise RuntimeError("no user \u00e9")
+                    return payload if payload is not None else {}
+
+                m = asyncio.run(ElicitationClient(ask).handle_elicitation_request({"jsonrpc": "2.0", "id": idv, "method": "elicitation/create", "params": {"message": "m", "schema": {}}}))
+            elif em == "batch.rejection":
+                from chuk_mcp.protocol.features.batching import BatchProcessor
+                m = BatchProcessor("2025-06-18").create_batch_rejection_error(idv)
             elif em.startswith("batch.item_error"):
                 from chuk_mcp.protocol.features.batching import BatchProcessor
                 kind = em.split(":")[1]
@@ -646,7 +703,7 @@ def run_emit(cases):
             else:
                 raise KeyError(em)
         except Exception as e:
-            r.update(built=False, exc=type(e).__name__)
+            r.update(built=False, exc=type(e).__name__ + ": " + str(e)[:120])
             res.append(r)
             continue
         forms = {}
